@@ -1,0 +1,35 @@
+//go:build verif
+
+// Contracts checked by /verif/gowp. This file contains comments only and is compiled only
+// with -tags verif.
+
+package usage
+
+// The Usage controller.
+//  C08  a Usage that is composed together with its using resource keeps its finalizer until
+//       the using resource is gone;
+//  C19  the Usage is reported Available only once the used resource carries the in-use label
+//       (observed, or written by an Update that returned nil) and, when there is a using
+//       resource, the Usage carries an owner reference to it; the in-use label is removed
+//       only while the Usage is being deleted and no other Usage of the resource is listed.
+
+//@ func (*usage.Reconciler).Reconcile
+//@ props C08 C19
+//@ ghost usingGone bool = false
+//@ site (client.Reader).Get(_, _, _, $obj) as Get-using
+//@   where $obj == using
+//@   update usingGone = call("k8s.io/apimachinery/pkg/api/errors.IsNotFound", err)
+//@   bind $using = $obj
+//@ site (resource.Finalizer).RemoveFinalizer(_, _, $o)
+//@   assert [C08:finalizer-only-when-deleted] $o == u && meta.WasDeleted(u)
+//@   assert [C08:composed-usage-waits-for-using] (by != nil && u.Labels[xcrd.LabelKeyNamePrefixForComposed] != "") ==> usingGone
+//@ site (client.Writer).Update(_, _, $o) as Update-used
+//@   where $o == used
+//@   assert [C19:label-removed-only-for-last-usage] meta.WasDeleted(u) ==> len(usageList.Items) < 2
+//@   assert [C19:label-added-when-live] !meta.WasDeleted(u) ==> used.GetLabels()[inUseLabelKey] == "true"
+//@ site (*v1.ConditionedStatus).SetConditions(_, $cs...)
+//@   assert [C19:available-only-when-live] (len($cs) == 1 && $cs[0].Type == "Ready" && $cs[0].Status == "True") ==> !meta.WasDeleted(u)
+//@   assert [C19:available-only-when-protected] (len($cs) == 1 && $cs[0].Type == "Ready" && $cs[0].Status == "True") ==>
+//@        used.GetLabels()[inUseLabelKey] == "true"
+//@   assert [C19:available-only-when-owned] (len($cs) == 1 && $cs[0].Type == "Ready" && $cs[0].Status == "True" && by != nil) ==>
+//@        exists i :: 0 <= i && i < len(u.GetOwnerReferences()) && u.GetOwnerReferences()[i].UID == $using.GetUID()
